@@ -53,3 +53,26 @@ PROPS["C02"] = {
     "assumptions": ["hash determines content", "fees and transferred values are non-nil / non-negative big.Ints as the host contract says",
                     "time budget not reached (1 h)"],
 }
+
+PROPS["C18"] = {
+    "runs": [{"component": "timecache", "labels": None, "n_quick": 2000, "n_thorough": 20000}],
+    "extras": [{"component": "timecache", "timeout": 400}],
+    "anchors": ["timecache/timeCacheCore.go", "timecache/timeCache.go", "timecache/timeCacher.go", "timecache/peerTimeCache.go"],
+    "exhaustive_claim": True,
+    "rule": "virtual time (VerifShiftTimestamps: clock advanced by d = every stored timestamp moved back by d; spans odd multiples of 30 min, "
+            "clock readings whole hours, so model and code must agree exactly). exhaustive: every sequence of (advance in {0,1h,2h}, op) pairs, "
+            "spans {30m,90m}, for TimeCache (Add, AddWithSpan 90m, Upsert 30m/90m, Sweep), peerTimeCache (Upsert 30m/90m, Sweep), timeCacher "
+            "(Put, HasOrAdd, Remove, goroutine sweep round): quick two keys length 3 + one key length 4 (36 747 histories), thorough two keys "
+            "length 4 + one key length 5 (614 601); observables after every op so all shorter sequences are covered as prefixes. random: 3-5 keys "
+            "(+ empty key 1/8), spans +-{30,90,150,210} min, advances 0-4 h, 8-32 ops, the three kinds, rejected cacher configs 1/40. non-trivial = "
+            "a history hitting any of: expired-and-swept, retained-across-sweep, upsert-extends/-smaller-span, add-shortens-remaining-life, ... "
+            "extra: real-time cases with one-sided monotonic brackets (see extra_checks.rule)",
+    "explanation": "Props/C18.v: theorems over all histories/spans on a model whose operations receive the clock reading; the model is tied to /repo by "
+                   "exact differential agreement in virtual time on all labels (incl. stored span and age of every key); the real clock and the goroutine "
+                   "are validated by the real-time extra, not proved.",
+    "assumptions": ["PARTIAL: time.Now/time.Since (monotonic, non-decreasing) and the timing of timeCacher's goroutine are validated, not modelled",
+                    "the per-element clock readings of one sweep are collapsed into one reading (C18_sweep_clock_readings shows nothing depends on it)",
+                    "the boundary instant now = t + span (strict >) is transcribed by reading; it cannot be produced against a real clock",
+                    "time.Duration arithmetic does not saturate (|now - timestamp| < 2^63 ns)",
+                    "handlers registered on timeCacher (RegisterHandler) are not modelled"],
+}
